@@ -703,7 +703,12 @@ def r18(ctx):
         writes = [(nid, rhs) for nid, d, rhs, op, lhs in fn.assignments() if d == lv and op != 'init' and nid in inloop]
         for nid, rhs in writes:
             n += 1
-            src = fn.nodes[fn.strip(rhs, casts=True)] if rhs is not None else {}
+            src = fn.nodes[fn.def_expr(rhs)] if rhs is not None else {}
+            if src.get('k') == 'DeclRefExpr' and src.get('rk') == 'local':
+                # a local that is initialised once and never written again stands for its initialiser
+                ds = [(o2, r2) for n2, d2, r2, o2, l2 in fn.assignments() if d2 == src.get('decl')]
+                if len(ds) == 1 and ds[0][0] == 'init' and ds[0][1] is not None:
+                    src = fn.nodes[fn.strip(ds[0][1], casts=True)]
             ok = (src.get('callee') or '').split('::')[-1] in ('parseInt', 'parseSignedInt', 'strtoul', 'stoul')
             ctx.ob('C09.R18', fn, nid, ok, 'write of the part length %s in the loop over the parts' % lv.split(':')[-1],
                    'taken from the parsed length of this part: %s' % ok)
